@@ -233,8 +233,9 @@ PROPS["C04"] = {
 }
 PROPS["C05"] = {
     "level_text": "Theorems (Props/C05.v) over the reals via Flocq, for every bit pattern (no enumeration): the float64 obtained from a 12.20 (16.32) field is exactly its two's-complement 32-bit (48-bit, fraction word first) integer divided by 2^20 (2^32) - float64(int) exact, division by a power of two exact; hence strictly monotone; re-encoding gives the same pattern; encoding an in-range float and decoding it again differs by less than one unit of resolution. Correspondence: boundary-biased and random patterns and floats against FP1220/FP1632.",
-    "level_note": "Trusted: Coq kernel; Flocq as the IEEE-754 semantics; amd64 float-to-unsigned conversion; hand-written model of fixedpoint.go (validated by correspondence); harness. Axioms: standard-library real-number axioms, classic, functional extensionality (via Flocq/Reals).",
+    "level_note": "Trusted: Coq kernel; Flocq as the IEEE-754 semantics; amd64 float-to-unsigned conversion; hand-written model of fixedpoint.go (validated by correspondence); harness. Axioms: standard-library real-number axioms, classic, functional extensionality (via Flocq/Reals). Tie T (Tie/FixedAgree.v): FP1220/FP1632 Float64 and FromFloat64 as REGENERATED statement by statement from fixedpoint.go on every run (Gen/Fixed.v) are proved equal to these models for every byte pattern and every binary64 value; float -> unsigned conversion and the IEEE operations remain those of Base/GoFloat.v (Flocq, amd64 conversion rule).",
     "technique": "Rocq proof over the reals (Flocq) of a Gallina model performing the same IEEE operations + differential correspondence",
+    "tie_files": ["Tie/FixedAgree.v"],
     "props_file": "Props/C05.v",
     "eval_modules": ["Run.EvalCodec"],
     "kinds": {
